@@ -77,6 +77,13 @@ def run_all(pid, jobs=None):
             p = os.path.join(sd, s, "patch.diff")
             if s.startswith(pid) and os.path.exists(p):
                 patches.append(p)
+    # behaviour-preserving refactorings written by independent sub-agents (cross-property corpus): must stay silent
+    eq = os.path.join(VERIF, "equivalents")
+    idx = os.path.join(eq, "index.json")
+    if os.path.exists(idx):
+        for f in json.load(open(idx)).get(pid, []):
+            if os.path.exists(os.path.join(eq, f)):
+                patches.append(os.path.join(eq, f))
     if not patches:
         return []
     from concurrent.futures import ThreadPoolExecutor
